@@ -15,12 +15,38 @@ pub open spec fn mp_ok(m: Placement, start: Square, dest: Square, piece: Kind, c
 pub open spec fn castle_dest_ok(d: Square) -> bool { (d.rank == 0 || d.rank == 7) && (d.file == 6 || d.file == 2) }
 pub open spec fn rook_from(d: Square) -> Square { Square { rank: d.rank, file: if d.file == 6 { 7u8 } else { 0u8 } } }
 pub open spec fn rook_to(d: Square) -> Square { Square { rank: d.rank, file: if d.file == 6 { 5u8 } else { 3u8 } } }
-/// what make_move needs from the ply: it describes a move of the piece standing on `start`
-/// (every generator establishes this; C01)
-pub open spec fn consistent(b: Board, p: Ply) -> bool {
+pub open spec fn c_fwd(c: Color) -> int { match c { Color::White => 1, Color::Black => -1 } }
+pub open spec fn c_start_rank(c: Color) -> int { match c { Color::White => 1, Color::Black => 6 } }
+pub open spec fn c_ep_rank(c: Color) -> int { match c { Color::White => 4, Color::Black => 3 } }
+pub open spec fn c_last_rank(c: Color) -> int { match c { Color::White => 7, Color::Black => 0 } }
+pub open spec fn is_pawn_kind(k: Kind) -> bool { k matches Kind::Pawn(_) }
+pub open spec fn is_king_kind(k: Kind) -> bool { k matches Kind::King(_) }
+/// the flags of a move agree with what it does (needed to keep the board invariants: en-passant pawn, home squares,
+/// no pawn on a last rank); established by the generators for every generated move (unit legal)
+pub open spec fn shaped_core(b: Board, p: Ply) -> bool {
+    let c = b.current_turn;
+    let mid = Square { rank: (p.start.rank as int + c_fwd(c)) as u8, file: p.start.file };
+    &&& (p.is_double_pawn_push ==> {
+            &&& p.piece == Kind::Pawn(c) && p.start.rank == c_start_rank(c)
+            &&& p.dest == (Square { rank: (p.start.rank as int + 2 * c_fwd(c)) as u8, file: p.start.file })
+            &&& pl(b)(mid).is_none() && p.captured_piece.is_none() && !p.en_passant && p.promoted_to.is_none()
+        })
+    &&& (p.en_passant ==> p.piece == Kind::Pawn(c) && p.start.rank == c_ep_rank(c) && p.captured_piece == Some(Kind::Pawn(opp(c)))
+            && p.dest.rank == c_ep_rank(c) + c_fwd(c) && p.promoted_to.is_none())
+    &&& (p.captured_piece matches Some(k) ==> !is_king_kind(k))
+}
+pub open spec fn promo_ok(b: Board, p: Ply) -> bool {
+    let c = b.current_turn;
+    &&& (p.promoted_to matches Some(k) ==> is_pawn_kind(p.piece) && !is_pawn_kind(k) && !is_king_kind(k) && color_of(k) == c)
+    &&& (is_pawn_kind(p.piece) && p.dest.rank == c_last_rank(c) ==> p.promoted_to.is_some())
+}
+pub open spec fn shaped(b: Board, p: Ply) -> bool { shaped_core(b, p) && promo_ok(b, p) }
+/// consistent without the promotion clause (a raw pawn move to the last rank, before it is exploded into four promotions)
+pub open spec fn consistent_core(b: Board, p: Ply) -> bool {
     &&& mp_ok(pl(b), p.start, p.dest, p.piece, p.captured_piece, p.en_passant)
     &&& color_of(p.piece) == b.current_turn
     &&& (p.is_double_pawn_push ==> p.dest.file < 8)
+    &&& shaped_core(b, p)
     &&& (p.is_castles ==> {
             &&& castle_dest_ok(p.dest) && p.captured_piece.is_none() && !p.en_passant && p.promoted_to.is_none()
             &&& p.piece == Kind::King(b.current_turn)
@@ -29,3 +55,6 @@ pub open spec fn consistent(b: Board, p: Ply) -> bool {
             &&& pl(b)(rook_to(p.dest)).is_none()
         })
 }
+/// what make_move needs from the ply: it describes a move of the piece standing on `start`
+/// (every generator establishes this; C01)
+pub open spec fn consistent(b: Board, p: Ply) -> bool { consistent_core(b, p) && promo_ok(b, p) }
